@@ -707,11 +707,14 @@ def _check_emitters(ctx, res: RuleResult):
     iterations over edges / nodes are unfiltered (except: attribute present, no attribute at all)"""
     writers = serializer_writers(ctx)
     n_emit = 0
-    for fi in writers:
+    LV: dict = {}
+    param_labels: dict = {}
+    seen_filters = set()
+    for fi in writers + writers + writers:
         fn = fi.node
-        label_vars = {}      # name -> 'edge' (pair of labels) | 'label'
+        label_vars = dict(param_labels.get(fi.fq, {}))      # name -> 'edge' (pair of labels) | 'label'
+        LV[fi.fq] = label_vars
         walk2 = list(own_walk(fn)) + list(own_walk(fn))
-        seen_filters = set()
         for n in walk2:
             gens = []
             if isinstance(n, ast.For):
@@ -780,6 +783,18 @@ def _check_emitters(ctx, res: RuleResult):
                     if not okf:
                         res.fail(Finding("R-CODEC", fi.module.rel, fi.qualname, norm(f if not isinstance(f, (ast.Continue, ast.Break)) else _guard_of(owner, f) or f),
                                          f"part of the molecule is filtered out of the string (iteration over {kind})", line=getattr(f, "lineno", None)))
+        # a label handed to another writer (one that formats a single atom / bond) is a label there
+        for n in own_walk(fn):
+            if isinstance(n, ast.Call):
+                cs_ = ctx.cg.resolve_call(fi, n, ctx.cg.local_types(fi), set(params_of(fn)))
+                if cs_.kind == "tucan" and cs_.target in writers and cs_.target is not fi:
+                    ps_ = params_of(cs_.target.node)
+                    for i_, a_ in enumerate(n.args):
+                        if i_ < len(ps_) and isinstance(a_, ast.Name) and label_vars.get(a_.id) in ("label", "edge"):
+                            param_labels.setdefault(cs_.target.fq, {})[ps_[i_]] = label_vars[a_.id]
+    for fi in writers:
+        fn = fi.node
+        label_vars = LV[fi.fq]
         formatted = []
         for n in own_walk(fn):
             if isinstance(n, ast.FormattedValue):
